@@ -9,7 +9,7 @@ V="${MUT_SRC:-$(cd "$(dirname "$0")/.." && pwd)}"
 NAME="$(basename "$WT")"
 S="/root/scratch/mutv-$NAME"
 mkdir -p "$S"
-rsync -a --delete --exclude '.git' --exclude '.build/harness-target' --exclude 'evidence' "$V/" "$S/" || exit 2
+rsync -a --delete --exclude '.git' --exclude 'evidence' "$V/" "$S/" || exit 2
 mkdir -p "$S/evidence"
 sed -i "s#path = \"/repo\"#path = \"$WT\"#" "$S/harness/Cargo.toml"
 # the copy already holds the compiled Coq development and the model runner; only the harness differs
